@@ -12,6 +12,7 @@ import (
 	"path/filepath"
 	"sort"
 	"strings"
+	"sync"
 	"time"
 
 	"github.com/nspcc-dev/neo-go/pkg/util"
@@ -154,6 +155,9 @@ type storageFix struct {
 	inDump   []oid.Address
 	tracked  []oid.Address
 	pristine string // engine part of observe() right after construction
+
+	cache      string // engineState() since the last invalidate()
+	cacheValid bool
 }
 
 func mustNoErr(err error, what string) {
@@ -162,21 +166,19 @@ func mustNoErr(err error, what string) {
 	}
 }
 
-func newStorageFix(ready bool) *storageFix {
-	f := &storageFix{fakes: new(storageFakes)}
-	f.srv = ctlsrv.New(&keyServer.PrivateKey, storageAllowed(), healthFake{f.fakes}, zap.NewNop())
-	if !ready {
-		return f
-	}
-	dir, err := os.MkdirTemp("", "c32-storage-")
-	mustNoErr(err, "temp dir")
-	f.dir = dir
-	for _, d := range []string{"in", "out"} {
-		mustNoErr(os.Mkdir(filepath.Join(dir, d), 0o755), "mkdir")
-	}
+// openEngine opens (or creates) the three-shard engine rooted at dir. Shard IDs
+// are generated on first use and persisted by the shard, so a copied directory
+// tree opens with the same IDs.
+func (f *storageFix) openEngine(dir string, shard1 mode.Mode) {
 	nop := zap.NewNop()
+	f.dir = dir
+	f.shards = nil
 	f.eng = engine.New(engine.WithLogger(nop))
 	for i := range nShardSyms {
+		m := mode.ReadWrite
+		if i == 1 {
+			m = shard1
+		}
 		id, err := f.eng.AddShard(
 			shard.WithLogger(nop),
 			shard.WithBlobstor(fstree.New(
@@ -192,32 +194,50 @@ func newStorageFix(ready bool) *storageFix {
 				meta.WithLogger(nop)),
 			shard.WithGCRemoverSleepInterval(24*time.Hour), // no wall-clock driven background work
 			shard.WithContainerPayments(paymentsStub{}),
+			shard.WithMode(m),
 		)
 		mustNoErr(err, "add shard")
 		f.shards = append(f.shards, id.Bytes())
 	}
 	mustNoErr(f.eng.Init(), "engine init")
+}
 
+var (
+	templateOnce sync.Once
+	templateDir  string
+)
+
+// buildTemplate populates an engine once per process; fixtures are copies of
+// its directory (re-opening a small engine is ~10x cheaper than populating it).
+func buildTemplate() {
+	dir, err := os.MkdirTemp("", "c32-template-")
+	mustNoErr(err, "temp dir")
+	templateDir = dir
+	for _, d := range []string{"in", "out"} {
+		mustNoErr(os.Mkdir(filepath.Join(dir, d), 0o755), "mkdir")
+	}
+	f := new(storageFix)
+	f.openEngine(dir, mode.ReadWrite)
 	ctx := context.Background()
 	setModes := func(ms ...mode.Mode) {
 		for i, m := range ms {
 			mustNoErr(f.setMode(i, m), "set shard mode")
 		}
 	}
-	putTo := func(shardIdx int, obj *object.Object) {
+	// engine.Put skips read-only shards: this pins every object to a chosen shard
+	// although shard IDs (and hence HRW order) are random.
+	putTo := func(shardIdx int, objs ...*object.Object) {
 		ms := []mode.Mode{mode.ReadOnly, mode.ReadOnly, mode.ReadOnly}
 		ms[shardIdx] = mode.ReadWrite
 		setModes(ms...)
-		mustNoErr(f.eng.Put(ctx, obj, nil), "put object")
-	}
-	for i := range nLiveAddrs {
-		obj := detObject("live", i)
-		putTo(i/2, obj)
-		f.live = append(f.live, obj.Address())
+		for _, obj := range objs {
+			mustNoErr(f.eng.Put(ctx, obj, nil), "put object")
+		}
 	}
 	victim := detObject("tombstoned", 0)
-	putTo(0, victim)
-	f.tombed = victim.Address()
+	putTo(0, detObject("live", 0), detObject("live", 1), victim)
+	putTo(1, detObject("live", 2), detObject("live", 3))
+	putTo(2, detObject("live", 4), detObject("live", 5))
 	setModes(mode.ReadWrite, mode.ReadWrite, mode.ReadWrite)
 	ts := detObject("tombstone", 0)
 	ts.AssociateDeleted(victim.GetID())
@@ -226,26 +246,61 @@ func newStorageFix(ready bool) *storageFix {
 	exp.SetValue(fmt.Sprint(fixtureEpoch + 1000))
 	ts.SetAttributes(append(ts.Attributes(), exp)...)
 	mustNoErr(f.eng.Put(ctx, ts, nil), "put tombstone")
-	f.tomb = ts.Address()
-	if _, err := f.eng.Get(ctx, f.tombed); !errors.Is(err, apistatus.ErrObjectAlreadyRemoved) {
+	if _, err := f.eng.Get(ctx, victim.Address()); !errors.Is(err, apistatus.ErrObjectAlreadyRemoved) {
 		ev.Inconclusive("C32 storage fixture: tombstoned object is not reported as removed: %v", err)
 	}
-	setModes(mode.ReadWrite, mode.ReadOnly, mode.ReadWrite)
+	mustNoErr(f.eng.Close(), "close template engine")
 
 	// a dump file in the format of shard.Dump with two objects unknown to the engine
 	dump := []byte("NEOF")
 	for i := range 2 {
-		obj := detObject("dumped", i)
-		bin := obj.Marshal()
+		bin := detObject("dumped", i).Marshal()
 		dump = binary.LittleEndian.AppendUint32(dump, uint32(len(bin)))
 		dump = append(dump, bin...)
-		f.inDump = append(f.inDump, obj.Address())
 	}
 	mustNoErr(os.WriteFile(f.path(pathDump), dump, 0o644), "write dump")
 	mustNoErr(os.WriteFile(f.path(pathGarbage), []byte("this is not a dump"), 0o644), "write garbage")
+}
 
+func copyTree(src, dst string) error {
+	return filepath.WalkDir(src, func(p string, d fs.DirEntry, err error) error {
+		if err != nil {
+			return err
+		}
+		rel, _ := filepath.Rel(src, p)
+		to := filepath.Join(dst, rel)
+		if d.IsDir() {
+			return os.MkdirAll(to, 0o755)
+		}
+		b, err := os.ReadFile(p)
+		if err != nil {
+			return err
+		}
+		return os.WriteFile(to, b, 0o644)
+	})
+}
+
+func newStorageFix(ready bool) *storageFix {
+	f := &storageFix{fakes: new(storageFakes)}
+	f.srv = ctlsrv.New(&keyServer.PrivateKey, storageAllowed(), healthFake{f.fakes}, zap.NewNop())
+	if !ready {
+		return f
+	}
+	templateOnce.Do(buildTemplate)
+	dir, err := os.MkdirTemp("", "c32-storage-")
+	mustNoErr(err, "temp dir")
+	mustNoErr(copyTree(templateDir, dir), "copy template")
+	f.openEngine(dir, mode.ReadOnly)
+
+	for i := range nLiveAddrs {
+		f.live = append(f.live, detObject("live", i).Address())
+	}
+	f.tombed = detObject("tombstoned", 0).Address()
+	f.tomb = detObject("tombstone", 0).Address()
+	f.inDump = []oid.Address{detObject("dumped", 0).Address(), detObject("dumped", 1).Address()}
 	f.tracked = append(append(append([]oid.Address{}, f.live...), f.tombed, f.tomb), f.inDump...)
 
+	nop := zap.NewNop()
 	pl, err := placement.New(containersFake{f.fakes}, networkFake{f.fakes})
 	mustNoErr(err, "placement service")
 	repl := replicator.New(replicator.WithLogger(nop), replicator.WithLocalStorage(f.eng),
@@ -253,7 +308,42 @@ func newStorageFix(ready bool) *storageFix {
 	f.srv.MarkReady(f.eng, pl, repl, nodeStateFake{f.fakes})
 
 	f.pristine = f.engineState()
+	f.selfCheck()
 	return f
+}
+
+// selfCheck makes sure the fixture is what the generators assume: otherwise
+// "no side effect" would be checked against a state where nothing can happen.
+func (f *storageFix) selfCheck() {
+	ctx := context.Background()
+	want := [][]int{{0, 1}, {2, 3}, {4, 5}}
+	for si, objs := range want {
+		for _, oi := range objs {
+			st, err := f.eng.ObjectStatus(ctx, f.live[oi])
+			mustNoErr(err, "object status")
+			for _, s := range st.Shards {
+				has := len(s.Shard.Metabase.State) > 0
+				mine := false
+				for _, sh := range f.eng.DumpInfo().Shards {
+					if sh.ID.String() == s.ID {
+						mine = string(sh.ID.Bytes()) == string(f.shards[si])
+					}
+				}
+				if has != mine {
+					ev.Inconclusive("C32 storage fixture: live object %d placement is not as designed (shard %s has=%v)", oi, s.ID, has)
+				}
+			}
+		}
+	}
+	for _, sh := range f.eng.DumpInfo().Shards {
+		ro := string(sh.ID.Bytes()) == string(f.shards[1])
+		if sh.Mode.ReadOnly() != ro {
+			ev.Inconclusive("C32 storage fixture: shard %s mode %v is not as designed", sh.ID, sh.Mode)
+		}
+	}
+	if _, err := f.eng.Get(ctx, f.tombed); !errors.Is(err, apistatus.ErrObjectAlreadyRemoved) {
+		ev.Inconclusive("C32 storage fixture: tombstoned object is not reported as removed: %v", err)
+	}
 }
 
 func (f *storageFix) setMode(idx int, m mode.Mode) error {
